@@ -94,7 +94,8 @@ static std::vector<Params> param_domain(int k, const str &pd, const strs &S, con
     for (long o : ov) for (long cu : cuts) for (long t : th) v.push_back(P(o, cu, t));
   } else if (k == K_FMINDEX) {
     if (full) {
-      for (long bw : {0, 1, 2, 3, 8, 64}) { for (long bp : {2, 4, 20}) v.push_back(P(0, bp, bw)); for (long bp : {16, 32, 128}) v.push_back(P(1, bp, bw)); }
+      // (for C12 the reference vector is the first one: it must support substring search, so sampling 0 comes last)
+      for (long bw : {1, 2, 3, 8, 64, 0}) { for (long bp : {2, 4, 20}) v.push_back(P(0, bp, bw)); for (long bp : {16, 32, 128}) v.push_back(P(1, bp, bw)); }
     } else if (pd == "min") { v.push_back(P(0, 4, 2)); }
     else { for (long bw : {0, 1, 2, 8}) v.push_back(P(0, 4, bw)); for (long bw : {0, 3}) v.push_back(P(1, 16, bw)); }
   }
